@@ -89,7 +89,8 @@ Proof. vm_compute. reflexivity. Qed.
 Lemma gmul_byte k a : In k [2; 3; 9; 11; 13; 14] -> byte a -> byte (gmul k a).
 Proof.
   intros Hk Ha.
-  pose proof (sweep256 _ gm_range_sweep a Ha) as H. cbv beta zeta in H.
+  pose proof (sweep256 (fun a => gm_ok 2 a && gm_ok 3 a && gm_ok 9 a && gm_ok 11 a && gm_ok 13 a && gm_ok 14 a)
+                gm_range_sweep a Ha) as H. cbv beta zeta in H.
   unfold gm_ok in H. unfold byte.
   simpl in Hk. destruct Hk as [<-|[<-|[<-|[<-|[<-|[<-|[]]]]]]]; lia.
 Qed.
@@ -104,7 +105,8 @@ Lemma gmul_add k a b : In k [9; 11; 13; 14] -> byte a -> byte b ->
   gmul k (Z.lxor a b) = Z.lxor (gmul k a) (gmul k b).
 Proof.
   intros Hk Ha Hb.
-  pose proof (sweep256x256 _ gm_add_sweep a b Ha Hb) as H. cbv beta zeta in H.
+  pose proof (sweep256x256 (fun a b => gm_add 9 a b && gm_add 11 a b && gm_add 13 a b && gm_add 14 a b)
+                gm_add_sweep a b Ha Hb) as H. cbv beta zeta in H.
   unfold gm_add in H.
   simpl in Hk. destruct Hk as [<-|[<-|[<-|[<-|[]]]]]; lia.
 Qed.
